@@ -4,6 +4,7 @@ import (
 	"encoding/hex"
 	"fmt"
 	"github.com/gogo/protobuf/proto"
+	"github.com/tendermint/tendermint/crypto/merkle"
 	"sort"
 	"time"
 
@@ -133,7 +134,7 @@ func (s *sim) nextByz(rng *simcore.RNG, roll int) simcore.Op {
 			// bytes): same block hash, different part-set header, offered to the other nodes
 			for _, p := range s.bz.props {
 				if p.h == h && p.r == r && p.b == b && p.mut == "" && p.enc == 0 && p.op != nil {
-					op := simcore.Op{"a": "byz", "k": "propose", "b": b, "via": via.idx, "h": h, "r": r, "pol": p.op.Int("pol"), "ntx": p.op.Int("ntx"), "salt": p.op.Int("salt"), "enc": 1 + rng.Intn(3)}
+					op := simcore.Op{"a": "byz", "k": "propose", "b": b, "via": via.idx, "h": h, "r": r, "pol": p.op.Int("pol"), "ntx": p.op.Int("ntx"), "salt": p.op.Int("salt"), "enc": 1 + rng.Intn(5)}
 					var t []int
 					for i := range s.nodes {
 						if p.targets != nil && !p.targets[i] {
@@ -224,6 +225,32 @@ func (s *sim) nextByz(rng *simcore.RNG, roll int) simcore.Op {
 		op["blk"] = fmt.Sprintf("%x/1/%x", hsh, hsh)
 	}
 	return s.finishByzVote(rng, op)
+}
+
+// unevenPartSet splits data into pieces with an empty one in the middle and builds the part
+// set a proposer would commit to for exactly those pieces.
+func unevenPartSet(data []byte, salt int) *types.PartSet {
+	if len(data) < 8 {
+		return nil
+	}
+	cut := len(data) / 2
+	if salt%2 == 1 {
+		cut = len(data) / 3
+	}
+	pieces := [][]byte{data[:cut], {}, data[cut:]}
+	for _, pc := range pieces {
+		if len(pc) > int(types.BlockPartSizeBytes) {
+			return nil
+		}
+	}
+	root, proofs := merkle.ProofsFromByteSlices(pieces)
+	ps := types.NewPartSetFromHeader(types.PartSetHeader{Total: uint32(len(pieces)), Hash: root})
+	for i, pc := range pieces {
+		if ok, err := ps.AddPart(&types.Part{Index: uint32(i), Bytes: pc, Proof: *proofs[i]}); !ok || err != nil {
+			return nil
+		}
+	}
+	return ps
 }
 
 // finishByzVote draws the recipients and the optional signature defect of a Byzantine vote.
@@ -379,6 +406,14 @@ func (s *sim) applyByz(op simcore.Op) bool {
 			}
 			bz = append(bz, 0x78, byte(enc)) // field 15, varint: unknown to tmproto.Block, skipped by the decoder
 			parts = types.NewPartSetFromData(bz, types.BlockPartSizeBytes)
+			if enc >= 4 {
+				// ... cut into uneven pieces with an EMPTY piece in the middle: AddPart and
+				// Part.ValidateBasic accept it, the reader must walk over it
+				if ps := unevenPartSet(bz, enc); ps != nil {
+					parts = ps
+					s.env.Count("fault.byz_proposal_empty_part")
+				}
+			}
 			s.mon.altEnc[string(parts.Hash())] = true
 			s.env.Count("fault.byz_proposal_alt_encoding")
 		} else {
